@@ -32,6 +32,7 @@ class Poly(Problem):
         self.D = D
         self.fmt = fmt
         self.mdtype = int if int_dtype else float     # integer-valued derivatives returned with an integer dtype
+        self.cache = {}                               # callbacks may hand out the same (cached) object again
         lo = np.array([fv(ROWS[k][0]) for k in kinds])
         hi = np.array([fv(ROWS[k][1]) for k in kinds])
         super().__init__(np.array([fv(v) for v in D["lx"]]), np.array([fv(v) for v in D["ux"]]), cons_lb=lo, cons_ub=hi)
@@ -50,13 +51,19 @@ class Poly(Problem):
 
     def cons_jac(self, x):
         D = self.D
-        J = np.array([[D["A"][i][0] + D["d"][i] * x[0], D["A"][i][1]] for i in range(2)], dtype=float)
-        return sps.coo_matrix(J.astype(self.mdtype)).asformat(self.fmt)
+        key = ("J", x.tobytes())
+        if key not in self.cache:
+            J = np.array([[D["A"][i][0] + D["d"][i] * x[0], D["A"][i][1]] for i in range(2)], dtype=float)
+            self.cache[key] = sps.coo_matrix(J.astype(self.mdtype)).asformat(self.fmt)
+        return self.cache[key]
 
     def lag_hess(self, x, y):
         D = self.D
-        H = np.array([[D["q"][0] + y[0] * D["d"][0] + y[1] * D["d"][1], D["r"]], [D["r"], D["q"][1]]], dtype=float)
-        return sps.coo_matrix(H.astype(self.mdtype)).asformat(self.fmt)
+        key = ("H", x.tobytes(), y.tobytes())
+        if key not in self.cache:
+            H = np.array([[D["q"][0] + y[0] * D["d"][0] + y[1] * D["d"][1], D["r"]], [D["r"], D["q"][1]]], dtype=float)
+            self.cache[key] = sps.coo_matrix(H.astype(self.mdtype)).asformat(self.fmt)
+        return self.cache[key]
 
 
 def same(a, b):
@@ -88,10 +95,13 @@ def replay(c, out, fmt, int_dtype=False):
         errs.append("grad")
     if not same(ev.cons(xt), [dec(v) for v in out["cons"]]):
         errs.append("cons")
-    if not same(ev.cons_jac(xt).toarray(), [[dec(v) for v in row] for row in out["jac"]]):
-        errs.append("jac")
-    if not same(ev.lag_hess(xt, yt).toarray(), [[dec(v) for v in row] for row in out["hess"]]):
-        errs.append("hess")
+    for rep in range(2):       # evaluated twice: the internal functions are functions of the point, whatever the callbacks cache
+        if not same(ev.cons_jac(xt).toarray(), [[dec(v) for v in row] for row in out["jac"]]):
+            errs.append("jac" if rep == 0 else "jac.repeated")
+        if not same(ev.lag_hess(xt, yt).toarray(), [[dec(v) for v in row] for row in out["hess"]]):
+            errs.append("hess" if rep == 0 else "hess.repeated")
+        if not same(ev.cons(xt), [dec(v) for v in out["cons"]]):
+            errs.append("cons.repeated")
     dt = np.arange(1.0, xt.size + 1.0)
     rx, ry, rd = tr.restore_sol(xt, yt, dt)
     exp_d = np.ldexp(dt[:2], np.array(c["vw"]) - c["ow"])
